@@ -29,7 +29,9 @@ def read_monitor(ctx, outdir, mode, prefixes):
     return seen
 
 
-KERNEL_THEOREMS = ["Slock.Engine.doLock_eq_generated", "Slock.Engine.countEqual_eq_generated", "Slock.Engine.checkLockedEqual_eq_generated"]
+KERNEL_THEOREMS = ["Slock.Engine.doLock_eq_generated", "Slock.Engine.countEqual_eq_generated", "Slock.Engine.checkLockedEqual_eq_generated",
+                   "Slock.Engine.expDeadline_generated", "Slock.Engine.exp_copies_agree", "Slock.Engine.toDeadline_generated",
+                   "Slock.Engine.to_copies_agree", "Slock.Engine.exp_ms_generated"]
 
 
 def check_kernels(ctx):
